@@ -847,13 +847,16 @@ pub fn run(ctx: &RunCtx) -> Report {
     let mut report = run_sharded_report(ctx, "model_checking", n, &[]);
     report.set("exhaustive", report.get_count("roots_capped") == 0);
     report.set("depth", ctx.tier.pick(2u64, 3));
+    // BFS order: a root which hit its state cap has all of its states of the previous depth expanded
+    report.set("depth_fully_covered_for_every_root", if report.get_count("roots_capped") == 0 { ctx.tier.pick(2u64, 3) } else { ctx.tier.pick(1u64, 2) });
+    report.set("state_cap_per_root", ctx.tier.pick(400u64, 3000));
     report.set(
         "rule",
         "roots = initial constructions (4 recreate methods x 2 random policies) of a slice of the pragmatic families (+ the 12-job line problems with an `any` \
          relation); transitions = 35 shipped operators (each ruin + cheapest, string ruin + each recreate, 6 local operators, LKH x2, decompose, redistribute, \
          infeasible search, default composite) x random-answer policies {default, streams}; BFS to the depth bound with states merged on canonical tours + job \
-         sets; C04: I1 partition, I2 registry, I3 multi-jobs, I4 locks, I5 feasibility by the independent oracle, I6 parent unchanged, I7 no panic; C05: cached \
-         route/solution state and fitness equal a full recomputation from the bare tours",
+         sets; C04: I1 partition (customer jobs by id, conditional jobs by identity), I2 registry, I3 multi-jobs, I4 locks (condition, pinned sequences whole / on one tour / in order; core-API locks accepting two vehicles), I5 feasibility by the independent oracle, I6 parent unchanged, I7 no panic; C05: cached \
+         route/solution state and fitness equal a full recomputation from the bare tours, at every state and (route level, hook H5) after every applied insertion",
     );
     report.assume("random answers: default menu entry or pseudo-random streams (not the full deviation tree); state cap per root (reported as roots_capped)");
     report
